@@ -67,7 +67,9 @@ def build(spec, workdir):
     exe = os.path.join(workdir, "main")
     if os.path.exists(exe):
         os.unlink(exe)
-    r = vlib.kddp_compile(os.path.join(workdir, main), exe, O=spec.get("O", 1), gcc_opts=vlib.ledger_gcc_opts(),
+    # the ledger's shadow table keeps every live address, which hides leaks from memcheck: programs with ledger=false are
+    # linked without it and leave the leak verdict to memcheck on the unmodified executable
+    r = vlib.kddp_compile(os.path.join(workdir, main), exe, O=spec.get("O", 1), gcc_opts=vlib.ledger_gcc_opts() if spec.get("ledger", True) else None,
                           extra=["--externe-gcc-optionen", "-I" + NATIVE])
     if r.rc != 0 or not os.path.exists(exe):
         return None, files, blocks, r
@@ -153,7 +155,7 @@ def execute(spec, workdir, memcheck=True):
             oc.ledger = f.read()
     except OSError:
         oc.ledger = ""
-    if pr.rc == 0:
+    if pr.rc == 0 and spec.get("ledger", True):
         for m in re.finditer(r"^VIOLATION kind=(\S+)", oc.ledger, re.M):
             oc.failures.append({"cls": "ledger:" + m.group(1), "fi": None, "n": None, "detail": m.group(0)})
             break
@@ -214,13 +216,56 @@ def _drop_param(fn, i):
     return fn
 
 
-def shrink(spec, cls, sc, budget=40):
-    """greedy reduction of a failing spec keeping the failure class; returns the reduced spec"""
+def _keep_params(fn, keep):
+    for i in reversed(range(len(fn["params"]))):
+        if i not in keep:
+            fn = _drop_param(fn, i)
+    for call in fn["calls"]:                     # variables no argument refers to any more
+        used = {a["var"] for a in call["args"]}
+        call["vars"] = [v for v in call["vars"] if v["name"] in used]
+    return fn
+
+
+def _simplify(s, what):
+    """one simplification step on a single-function spec; -> changed?"""
+    changed = False
+    if what == "temp":
+        for c in s["fns"][0]["calls"]:
+            for a in c["args"]:
+                if a.pop("temp", None):
+                    changed = True
+    elif what == "calc":
+        for c in s["fns"][0]["calls"]:
+            for a in c["args"]:
+                if a.pop("calc", None):
+                    changed = True
+    elif what == "by":
+        for p in s["fns"][0]["params"]:
+            if p.get("by", "keep") != "keep":
+                p["by"] = "keep"
+                changed = True
+    elif what == "toplevel":
+        for c in s["fns"][0]["calls"]:
+            if not c.get("toplevel"):
+                c["toplevel"] = True
+                changed = True
+    elif what == "variant" and s.get("variant") == "import":
+        s["variant"] = "direct"
+        changed = True
+    elif what == "lib" and s.get("lib") == "a":
+        s["lib"] = "c"
+        changed = True
+    return changed
+
+
+SIMPLIFICATIONS = ("temp", "calc", "by", "toplevel", "variant", "lib")
+
+
+def shrink(spec, cls, sc, budget=60):
+    """greedy reduction of a failing spec keeping the failure class (candidates of one step run in parallel)"""
     state = {"n": 0}
 
     def fails(s):
-        if state["n"] >= budget:
-            return False
         state["n"] += 1
         d = sc.sub("shrink-%d-%d" % (spec.get("id", 0), state["n"]))
         try:
@@ -229,78 +274,64 @@ def shrink(spec, cls, sc, budget=40):
         finally:
             shutil.rmtree(d, ignore_errors=True)
 
+    def first_failing(cands):
+        cands = cands[:max(0, budget - state["n"])]
+        if not cands:
+            return None
+        for c, bad in zip(cands, vlib.pmap(fails, cands, workers=8)):
+            if bad:
+                return c
+        return None
+
     cur = copy.deepcopy(spec)
-    # one function
-    if len(cur["fns"]) > 1:
-        for fn in cur["fns"]:
-            s = dict(cur, fns=[fn])
-            if fails(s):
-                cur = s
-                break
-    # one call
-    for fi in range(len(cur["fns"])):
-        fn = cur["fns"][fi]
-        if len(fn["calls"]) > 1:
-            for call in fn["calls"]:
-                s = copy.deepcopy(cur)
-                s["fns"][fi]["calls"] = [copy.deepcopy(call)]
-                if fails(s):
-                    cur = s
-                    break
+    if len(cur["fns"]) > 1:                      # one function
+        got = first_failing([dict(cur, fns=[fn]) for fn in cur["fns"]])
+        if got:
+            cur = copy.deepcopy(got)
+    if len(cur["fns"]) == 1 and len(cur["fns"][0]["calls"]) > 1:      # one call
+        cands = []
+        for call in cur["fns"][0]["calls"]:
+            s = copy.deepcopy(cur)
+            s["fns"][0]["calls"] = [copy.deepcopy(call)]
+            cands.append(s)
+        got = first_failing(cands)
+        if got:
+            cur = got
     if len(cur["fns"]) == 1:
-        # parameters
-        progress = True
-        while progress:
-            progress = False
-            fn = cur["fns"][0]
-            for i in reversed(range(len(fn["params"]))):
-                s = dict(cur, fns=[_drop_param(fn, i)])
-                if fails(s):
-                    cur = s
-                    progress = True
-                    break
-        # result
         fn = cur["fns"][0]
-        if fn["ret"]:
+        if len(fn["params"]) > 0:                # no parameter / one parameter / drop one at a time
+            cands = [dict(cur, fns=[_keep_params(fn, set())])] + [dict(cur, fns=[_keep_params(fn, {i})]) for i in range(len(fn["params"]))]
+            got = first_failing(cands)
+            if got:
+                cur = copy.deepcopy(got)
+            else:
+                progress = True
+                while progress and len(cur["fns"][0]["params"]) > 2:
+                    fn = cur["fns"][0]
+                    got = first_failing([dict(cur, fns=[_drop_param(fn, i)]) for i in reversed(range(len(fn["params"])))])
+                    progress = got is not None
+                    if got:
+                        cur = copy.deepcopy(got)
+        fn = cur["fns"][0]
+        if fn["ret"]:                            # result
             s = copy.deepcopy(cur)
             s["fns"][0]["ret"] = None
             for c in s["fns"][0]["calls"]:
                 c["ret"], c["use"] = None, "stmt"
-            if fails(s):
+            if first_failing([s]):
                 cur = s
-        # argument forms and callee modes
-        for what in ("temp", "by", "toplevel", "variant", "lib"):
-            s = copy.deepcopy(cur)
-            changed = False
-            if what == "temp":
-                for c in s["fns"][0]["calls"]:
-                    for a in c["args"]:
-                        if a.pop("temp", None):
-                            changed = True
-            elif what == "by":
-                for p in s["fns"][0]["params"]:
-                    if p.get("by", "keep") != "keep":
-                        p["by"] = "keep"
-                        changed = True
-            elif what == "toplevel":
-                for c in s["fns"][0]["calls"]:
-                    if not c.get("toplevel"):
-                        c["toplevel"] = True
-                        changed = True
-            elif what == "variant" and s.get("variant") == "import":
-                s["variant"] = "direct"
-                changed = True
-            elif what == "lib" and s.get("lib") == "a":
-                s["lib"] = "c"
-                changed = True
-            if changed and fails(s):
+        s = copy.deepcopy(cur)                   # argument forms, callee modes, module layout: all at once, else one by one
+        if any([_simplify(s, w) for w in SIMPLIFICATIONS]):
+            if first_failing([s]):
                 cur = s
-        # which optimisation levels
-        levels = []
-        for O in (0, 1, 2):
-            if O == cur.get("O") or fails(dict(cur, O=O)):
-                levels.append(O)
-        cur["fails_at_O"] = levels
+            else:
+                for w in SIMPLIFICATIONS:
+                    s = copy.deepcopy(cur)
+                    if _simplify(s, w) and first_failing([s]):
+                        cur = s
+        others = [O for O in (0, 1, 2) if O != cur.get("O")]
+        res = vlib.pmap(fails, [dict(cur, O=O) for O in others], workers=2)
+        cur["fails_at_O"] = sorted([cur.get("O")] + [O for O, bad in zip(others, res) if bad])
     return cur
 
 
@@ -328,21 +359,46 @@ def signature_of(spec, f):
     return sig
 
 
+ATTRIBUTED = ("mismatch:", )
+
+
 def report(chk, spec, oc, f, sc, do_shrink=True):
+    """one violation: failures that name their call are cut down to that call, the others are shrunk by re-execution"""
     red = spec
-    if do_shrink:
-        try:
+    try:
+        if f["cls"].startswith(ATTRIBUTED) and f.get("fi") is not None:
+            red = copy.deepcopy(spec)
+            fn = red["fns"][f["fi"]]
+            fn["calls"] = [fn["calls"][f["n"]]]
+            red["fns"] = [fn]
+            if f.get("param") is not None:       # try: only the parameter concerned, no result
+                small = copy.deepcopy(red)
+                sfn = _keep_params(small["fns"][0], {f["param"]})
+                sfn["ret"] = None
+                for c in sfn["calls"]:
+                    c["ret"], c["use"] = None, "stmt"
+                small["fns"] = [sfn]
+                d = sc.sub("small-%d" % spec.get("id", 0))
+                soc = execute(small, d, memcheck=False)
+                shutil.rmtree(d, ignore_errors=True)
+                if any(x["cls"] == f["cls"] for x in soc.failures):
+                    red = small
+        elif do_shrink:
             red = shrink(spec, f["cls"], sc)
-        except Exception as e:  # a shrinking problem must not hide the finding
-            log("[C18] shrink failed: %r" % (e,))
-            red = spec
-    d = sc.sub("final-%d" % spec.get("id", 0))
-    roc = execute(red, d, memcheck=f["cls"].startswith("memcheck")) if red is not spec else oc
-    shutil.rmtree(d, ignore_errors=True)
-    rf = next((x for x in roc.failures if x["cls"] == f["cls"]), None)
-    if rf is None:
-        red, roc, rf = spec, oc, f
+    except Exception as e:  # a shrinking problem must not hide the finding
+        log("[C18] shrink failed: %r" % (e,))
+        red = spec
+    roc, rf = oc, f
+    if red is not spec:
+        d = sc.sub("final-%d" % spec.get("id", 0))
+        roc = execute(red, d, memcheck=f["cls"].startswith("memcheck"))
+        shutil.rmtree(d, ignore_errors=True)
+        rf = next((x for x in roc.failures if x["cls"] == f["cls"]), None)
+        if rf is None:
+            red, roc, rf = spec, oc, f
     sig = signature_of(red, rf)
+    if red is spec and not f["cls"].startswith(ATTRIBUTED) and len(spec["fns"]) > 1:
+        sig["signature"] = "unattributed: one of the %d functions of program %s" % (len(spec["fns"]), spec.get("id"))
     files = {"spec.json": json.dumps(red, indent=1, ensure_ascii=False), "original_spec.json": json.dumps(spec, ensure_ascii=False)}
     for rel, text in roc.files.items():
         files["program/" + rel] = text
@@ -396,13 +452,14 @@ def run(tier):
                     for i, p in enumerate(fn["params"]):
                         chk.count("param_observations")
                         a = call["args"][i]
-                        chk.count("form=" + ("temp" if a.get("temp") else (a["path"][0] if a.get("path") else "var")))
+                        chk.count("form=" + (a.get("calc") or ("temp" if a.get("temp") else (a["path"][0] if a.get("path") else "var"))))
                     if len({a["var"] for a in call["args"]}) < len(call["args"]):
                         chk.count("calls_with_aliased_arguments")
                 chk.count("arity=%d" % len(fn["params"]))
                 chk.count("variant=" + spec["variant"])
                 chk.count("lib=." + spec["lib"])
                 chk.count("O=%d" % spec["O"])
+                chk.count("monitor=" + ("ledger+memcheck" if spec.get("ledger", True) else "memcheck on the ledger-free executable"))
             chk.count("lines_compared", oc.lines)
             chk.count("ledger_events", oc.ledger_events)
             if oc.memchecked:
@@ -413,21 +470,48 @@ def run(tier):
                             "expected_and_observed": [l for l, _ in oc.blocks[0][2]][:12]}, limit=3)
             if oc.failures:
                 failing.append((spec, oc))
-        # one report per failure class and program; shrinking is bounded
+        # reports: failures that name their call and parameter are reported at most twice per (class, parameter form) and run;
+        # the others are shrunk by re-execution (1 per class, 4 per run); at most 16 reports need re-execution per run.
+        # Failures matching a known finding are only counted (no re-execution).
         shrunk = 0
+        reexec = 0
         seen_cls = {}
+        seen_key = {}
         for spec, oc in failing:
             classes = []
             for f in oc.failures:
                 if f["cls"] not in classes:
                     classes.append(f["cls"])
             for cls in classes:
+                chk.count("failures:" + cls)
+                if cls.startswith(ATTRIBUTED):
+                    done = set()
+                    for f in oc.failures:        # one per (function, parameter)
+                        if f["cls"] != cls or (f["fi"], f.get("param")) in done:
+                            continue
+                        done.add((f["fi"], f.get("param")))
+                        prov = signature_of(spec, f)
+                        if chk.match_known(prov) is not None:
+                            chk.violation(prov)
+                            continue
+                        key = (cls, prov.get("param") or prov.get("signature"))
+                        seen_key[key] = seen_key.get(key, 0) + 1
+                        if seen_key[key] > 2 or reexec >= 16:
+                            chk.count("failures_not_reported_individually")
+                            continue
+                        reexec += 1
+                        report(chk, spec, oc, f, sc)
+                    continue
                 f = next(x for x in oc.failures if x["cls"] == cls)
-                do = seen_cls.get(cls, 0) < 4 and shrunk < 16
+                do = seen_cls.get(cls, 0) < 1 and shrunk < 4
                 seen_cls[cls] = seen_cls.get(cls, 0) + 1
                 if do:
                     shrunk += 1
-                report(chk, spec, oc, f, sc, do_shrink=do)
+                    report(chk, spec, oc, f, sc, do_shrink=True)
+                elif seen_cls[cls] <= 4:
+                    report(chk, spec, oc, f, sc, do_shrink=False)
+                else:
+                    chk.count("failures_not_reported_individually")
     return chk.finish(min_events=50)
 
 
